@@ -1053,16 +1053,23 @@ def check_pbkdf2_small(ck_ob, mod, label, thorough=False):
     counts = tuple(sorted(set(counts) | {v_ for c_ in compared_constants(f) if c_ <= 24 and c_ != 32 for v_ in (c_, c_ + 1)}))[:12]
     bad = None
     npaths = 0
+    SPLIT = [33]
     START = ("tinyjambu_hmac_init", "tinyjambu_hmac_reinit")
     for cnt in counts:
         for L in range(top + 1):
             if cnt > 3 and L > 70:
                 continue
-            ex = irx.Exec(f, Handler(), havoc="auto", auto=True, split_max=33, arg_consts={oi: L, ci: cnt})
+            ex = irx.Exec(f, Handler(), havoc="auto", auto=True, split_max=SPLIT[0], arg_consts={oi: L, ci: cnt})
             ps = ex.run(max_paths=50)
             if len(ps) != 1 or ps[0].end[0] != "ret":
                 # a bottom-tested loop has no test at its head to decide: with count and length concrete every block is simply followed
-                ex = irx.Exec(f, Handler(), havoc="auto", auto=True, unroll=True, split_max=33, arg_consts={oi: L, ci: cnt})
+                ex = irx.Exec(f, Handler(), havoc="auto", auto=True, unroll=True, split_max=SPLIT[0], arg_consts={oi: L, ci: cnt})
+                ps = ex.run(max_paths=50)
+            if len(ps) > 4 and SPLIT[0] != 2:
+                SPLIT[0] = 2        # (and for the remaining evaluations: the enumeration is the same for every count and length)
+                # a test of the (symbolic) password length against a small constant makes the executor enumerate the lengths below it:
+                # coarse classes are enough here (each class is one straight path; what a class may do is judged from its range)
+                ex = irx.Exec(f, Handler(), havoc="auto", auto=True, split_max=2, arg_consts={oi: L, ci: cnt})
                 ps = ex.run(max_paths=50)
             if not ps or len(ps) > 4 or any(q_.end[0] != "ret" for q_ in ps):
                 raise Broken("tinyjambu_pbkdf2: with count %d and outlen %d the function is not a few straight paths (%d paths): not decided by the small-length rule" % (cnt, L, len(ps)))
